@@ -1,4 +1,472 @@
-def rule_zero_length(ctx, F, rule):
-    pass
+"""C01 - per-property keyframe interpolation (DESIGN.md section 5, C01)."""
+from facts import AnchorLost
+from rulelib import trace_of, calls, call_is, mentions
+import pse
+import terms
+import intervals
+from pse import show, subterms
+
+ST = "mina_core::timeline_helpers::SubTimeline"
+SK = "mina_core::timeline_helpers::SplitKeyframe"
+EF = "mina_core::easing::EasingFunction"
+LERP = "mina_core::interpolation::Lerp"
+SELF = ("deref", ("param", 1))
+
+
+def st_fields(F):
+    a = F.adt(ST)
+    fs = a["variants"][0]["fields"]
+    frames = [f["name"] for f in fs if f["ty"].startswith("alloc::vec::Vec<") and "SplitKeyframe" in f["ty"]]
+    imap = [f["name"] for f in fs if f["ty"] == "alloc::vec::Vec<usize>"]
+    ov = [f["name"] for f in fs if f["ty"].startswith("core::option::Option<") and "SplitKeyframe" in f["ty"]]
+    if len(frames) != 1 or len(imap) != 1 or len(ov) != 1:
+        raise AnchorLost("SubTimeline fields (frames / index map / override)")
+    k = F.adt(SK)
+    kf = {f["ty"]: f["name"] for f in k["variants"][0]["fields"]}
+    if "f32" not in kf or "mina_core::easing::Easing" not in kf or "Value" not in kf:
+        raise AnchorLost("SplitKeyframe fields (time / easing / value)")
+    return {"frames": frames[0], "imap": imap[0], "ov": ov[0], "time": kf["f32"], "easing": kf["mina_core::easing::Easing"],
+            "value": kf["Value"]}
+
+
+# ---------------------------------------------------------------------------------------------------
+# R1 - splitting
+def rule_split(ctx, F, rule="R1"):
+    fl = st_fields(F)
+    body = F.one(crate="mina_core", name="from_keyframes", impl_self_adt=ST)
+    eng = pse.Engine(F)
+    paths = eng.run(body)
+    ctx.count_paths(paths, body)
+    # loop-carried locals by type
+    lt = {}
+    for i, l in enumerate(body["locals"]):
+        lt[i] = l["ty"]
+    frames_l = [i for i, t in lt.items() if t.startswith("alloc::vec::Vec<") and "SplitKeyframe" in t]
+    imap_l = [i for i, t in lt.items() if t == "alloc::vec::Vec<usize>"]
+
+    def lv(p, pred):
+        """loop variables (havocked at the header) whose local type satisfies pred"""
+        out = set()
+        for x in subterms(tuple(e.get("descs", ()) for e in p.events if e["kind"] == "call") + (p.ret or (),)
+                          + tuple(c[0] for c in p.conds)):
+            if x[0] == "loop" and x[2][0] == "local" and pred(x[2][2]):
+                out.add(x)
+        return out
+
+    kf_time = {f["ty"]: f["name"] for f in F.adt("mina_core::timeline::Keyframe")["variants"][0]["fields"]}
+    n_body = n_epi = 0
+    for p in paths:
+        pushes = calls(p, lambda e: e["fn"]["name"] == "push" and "Vec" in e["callee"])
+        nexts = calls(p, lambda e: e["fn"]["name"] == "next")
+        took = None
+        for (t, v, s) in p.conds:
+            if t[0] == "discr" and nexts and t[1] == nexts[0]["result"]:
+                took = v
+        frame_pushes = [e for e in pushes if e["descs"][1][0] == "agg" and e["descs"][1][2] == SK]
+        idx_pushes = [e for e in pushes if e not in frame_pushes]
+        if took == 1:
+            n_body += 1
+            lab = "iter[%s]" % ",".join(str(v) for (_, v, _) in p.conds[1:])
+            kf = ("deref", ("field", ("variant", nexts[0]["result"], "Some"), "0"))
+            getter = calls(p, lambda e: e["fn"]["name"] == "call" and e["fn"].get("trait", "").startswith("core::ops::function::Fn"))
+            gres = getter[0]["result"] if getter else None
+            gdec = None
+            for (t, v, s) in p.conds:
+                if gres is not None and t[0] == "discr" and t[1] == gres:
+                    gdec = v
+            kfptr = ("field", ("variant", nexts[0]["result"], "Some"), "0")
+            ok_getter = len(getter) == 1 and getter[0]["descs"][1][0] == "agg" and len(getter[0]["descs"][1][4]) == 1 and \
+                getter[0]["descs"][1][4][0][1] == ("ref", ("M", kfptr), (("field", kf_time.get("Data", "data")),), False)
+            ctx.ob(rule, lab + "/getter-on-this-keyframe", ok_getter,
+                   "each iteration asks the property getter about this keyframe's data exactly once", body["span"],
+                   trace_of(p), what="getter-misuse")
+            easing_loop = [x for x in lv(p, lambda t: t == "mina_core::easing::Easing")]
+            cur_easing_in = easing_loop[0] if len(easing_loop) == 1 else None
+            data_frames = []
+            synth = []
+            for e in frame_pushes:
+                f = dict(e["descs"][1][4])
+                if f[fl["time"]] == ("const", "f32", ("f", 0, 0.0)) and f[fl["value"]] == ("param", 2):
+                    synth.append((e, f))
+                else:
+                    data_frames.append((e, f))
+            # (a) data frame only on the Some arm, with (keyframe position, payload, current easing)
+            if gdec == 1:
+                ok = len(data_frames) == 1
+                if ok:
+                    e, f = data_frames[0]
+                    ke = ("field", kf, [n for t, n in kf_time.items() if t.startswith("core::option::Option<")][0])
+                    kdec = None
+                    for (t, v, s) in p.conds:
+                        if t[0] == "discr" and (t[1] == ke or t[1] == ("optref-of",) or pse.contains(t[1], ke)):
+                            kdec = v
+                    want_easing = ("field", ("variant", ke, "Some"), "0") if kdec == 1 else cur_easing_in
+                    ok = f[fl["time"]] == ("field", kf, kf_time["f32"]) and \
+                        f[fl["value"]] == ("field", ("variant", gres, "Some"), "0") and \
+                        (f[fl["easing"]] == want_easing or (kdec == 1 and pse.contains(f[fl["easing"]], ke)))
+                    ctx.ob(rule, lab + "/data-frame", ok,
+                           "a keyframe that defines the property yields one frame (its position, its value, the easing in "
+                           "force: its own easing if it has one, else the carried one); pushed %s" % show(e["descs"][1]),
+                           body["span"], trace_of(p), what="data-frame-wrong")
+                    # (b) the carried easing after the iteration
+                    fin = None
+                    for l in [i for i, t in lt.items() if t == "mina_core::easing::Easing"]:
+                        v = p.store.get(("L", 0, l))
+                        if v is not None and cur_easing_in is not None and cur_easing_in[2][1] == l:
+                            fin = v
+                    if fin is not None:
+                        okc = (fin == cur_easing_in) if kdec == 0 else pse.contains(fin, ke)
+                        ctx.ob(rule, lab + "/easing-carry", okc,
+                               "the carried easing changes only to the easing of a keyframe that defines the property "
+                               "and has one; after the iteration it is %s" % show(fin), body["span"], trace_of(p),
+                               what="easing-carry-wrong")
+                else:
+                    ctx.ob(rule, lab + "/data-frame", False, "Some arm must push exactly one data frame (%d)" % len(data_frames),
+                           body["span"], trace_of(p), what="data-frame-missing")
+            elif gdec == 0:
+                ctx.ob(rule, lab + "/no-frame-without-data", not data_frames,
+                       "a keyframe that omits the property takes no part: no frame may be pushed", body["span"],
+                       trace_of(p), what="frame-without-data")
+                # easing of keyframes that omit the property takes no part
+                for l in [i for i, t in lt.items() if t == "mina_core::easing::Easing"]:
+                    v = p.store.get(("L", 0, l))
+                    if v is not None and cur_easing_in is not None and cur_easing_in[2][1] == l:
+                        ctx.ob(rule, lab + "/easing-untouched", v == cur_easing_in,
+                               "the easing of a keyframe that omits the property must not be carried over; carried "
+                               "easing becomes %s" % show(v), body["span"], trace_of(p), what="easing-leaks")
+            # (c) synthetic 0 % frame only under frames empty and position > 0
+            empty = pos_gt0 = None
+            for (t, v, s) in p.conds:
+                if t[0] == "bin" and t[1] == "Eq" and t[2][0] == "len" and t[3] == ("const", "usize", 0):
+                    empty = v
+                if t[0] == "bin" and t[1] == "Lt" and intervals.fval(t[2]) == 0.0 and t[3] == ("field", kf, kf_time["f32"]):
+                    pos_gt0 = v
+            if synth:
+                e, f = synth[0]
+                ok = len(synth) == 1 and empty == 1 and pos_gt0 == 1 and f[fl["easing"]] == cur_easing_in
+                ctx.ob(rule, lab + "/synthetic-start", ok,
+                       "the synthetic 0%% frame (0.0, default value, easing in force) is added only when no frame exists "
+                       "yet and this keyframe is after 0%%; row empty=%s pos>0=%s frame=%s" % (empty, pos_gt0, show(e["descs"][1])),
+                       body["span"], trace_of(p), what="synthetic-start-wrong")
+            elif empty == 1 and pos_gt0 == 1:
+                ctx.ob(rule, lab + "/synthetic-start", False, "missing synthetic 0% frame", body["span"], trace_of(p),
+                       what="synthetic-start-missing")
+            # (d) exactly one push to the index map, = index of the last frame
+            ok = len(idx_pushes) == 1 and p.outcome == "backedge"
+            if ok:
+                v = idx_pushes[0]["descs"][1]
+                ok = v[0] == "bin" and v[1] == "Sub" and v[2][0] == "max" and v[2][1][0] == "len" and \
+                    v[3] == ("const", "usize", 1)
+            ctx.ob(rule, lab + "/index-map", ok,
+                   "every keyframe contributes exactly one entry (index of the latest frame) to the master->property "
+                   "index map - the lookup depends on the map staying parallel to the keyframes; pushes: %s"
+                   % [show(e["descs"][1]) for e in idx_pushes], body["span"], trace_of(p), what="index-map-not-parallel")
+        elif took == 0:
+            n_epi += 1
+            lab = "epilogue[%s]" % ",".join(str(v) for (_, v, _) in p.conds[1:])
+            r = p.ret
+            f = dict(r[4]) if r[0] == "agg" else {}
+            hasdata = [v for (t, v, s) in p.conds if t[0] == "loop" and t[2][2] == "bool"]
+            if hasdata == [0]:
+                ok = _is_empty_vec(f.get(fl["frames"])) and _is_empty_vec(f.get(fl["imap"])) and \
+                    f.get(fl["ov"], ("x",))[0] == "agg" and f[fl["ov"]][3] == "None"
+                ctx.ob(rule, lab + "/no-data-empty", ok,
+                       "without any data for the property the sub-timeline must be empty; got %s" % show(r), body["span"],
+                       trace_of(p), what="no-data-not-empty")
+            else:
+                last = calls(p, lambda e: e["fn"]["name"] == "last")
+                lt1 = [v for (t, v, s) in p.conds if t[0] == "bin" and t[1] == "Lt" and intervals.fval(t[3]) == 1.0]
+                if last and lt1 == [1]:
+                    fr = ("deref", ("field", ("variant", last[0]["result"], "Some"), "0"))
+                    ok = len(frame_pushes) == 1
+                    if ok:
+                        g = dict(frame_pushes[0]["descs"][1][4])
+                        ok = intervals.fval(g[fl["time"]]) == 1.0 and g[fl["value"]] == ("field", fr, fl["value"]) and \
+                            g[fl["easing"]] == ("field", fr, fl["easing"])
+                    ctx.ob(rule, lab + "/trailing-frame", ok,
+                           "when the last frame is before 100%% one more frame at 1.0 with the same value and easing is "
+                           "appended (the value is held); pushed %s" % [show(e["descs"][1]) for e in frame_pushes],
+                           body["span"], trace_of(p), what="trailing-frame-wrong")
+                else:
+                    ctx.ob(rule, lab + "/no-extra-frame", not frame_pushes,
+                           "no frame is appended when the last frame is already at 100%", body["span"], trace_of(p),
+                           what="extra-trailing-frame")
+                ok = f.get(fl["ov"], ("x",))[0] == "agg" and f[fl["ov"]][3] == "None"
+                ctx.ob(rule, lab + "/fresh-override", ok, "a new sub-timeline has no start override", body["span"],
+                       what="override-preset")
+    ctx.floor(rule, "loop-body rows of from_keyframes", n_body, 9)
+    ctx.floor(rule, "epilogue rows of from_keyframes", n_epi, 4)
+
+
+def _is_empty_vec(t):
+    return t is not None and t[0] == "call" and t[1].startswith("alloc::vec::Vec::<T>::new")
+
+
+# ---------------------------------------------------------------------------------------------------
+# R2 / R3 - lookup and eased lerp
+def value_at_rows(ctx, F):
+    body = F.one(crate="mina_core", name="value_at", impl_self_adt=ST)
+    eng = pse.Engine(F, inline=lambda fn, b: b["name"] not in ("calc", "lerp"))
+    paths = eng.run(body)
+    ctx.count_paths(paths, body)
+    return body, paths
+
+
+def rule_lookup(ctx, F, rule2="R2", rule3="R3"):
+    fl = st_fields(F)
+    body, paths = value_at_rows(ctx, F)
+    frames = ("field", SELF, fl["frames"])
+    T = None
+    n_lerp = n_zero = 0
+    for p in paths:
+        if p.outcome != "return":
+            continue
+        lab = "row[%s]" % ",".join(str(v) for (_, v, _) in p.conds)
+        r = p.ret
+        # index term I = frame_index_map[hint]
+        gm = [x for x in subterms((r,) + tuple(c[0] for c in p.conds)) if x[0] == "call" and x[1].endswith("::get")
+              and x[2][0] == ("&", ("field", SELF, fl["imap"]))]
+        if not gm:
+            continue
+        I = ("deref", ("field", ("variant", gm[0], "Some"), "0"))
+        ctx.ob(rule2, lab + "/hint-index", gm[0][2][1] == ("param", 3),
+               "the index map is consulted with the caller's master index", body["span"], what="hint-not-used")
+        flag = idec = present = None
+        for (t, v, s) in p.conds:
+            if t == ("param", 4):
+                flag = v
+            if t[0] == "discr" and (pse.contains(t, ("field", fl["ov"])) or pse.contains(t, ("field", SELF, fl["ov"]))):
+                present = v
+        one = ("const", "usize", 1)
+        Km1 = ("bin", "Sub", I, one, "usize")
+        Kp1 = ("bin", "Add", I, one, "usize")
+
+        def eq0(K):
+            for (t, v, s) in p.conds:
+                if t[0] == "bin" and t[1] == "Eq" and t[2] == K and t[3] == ("const", "usize", 0):
+                    return v
+            return None
+
+        def plain(K):
+            return ("deref", ("field", ("variant", ("call", "core::slice::<impl [T]>::get", (("&", frames), K)), "Some"), "0"))
+
+        def is_override(fr):
+            return pse.contains(fr, ("field", fl["ov"])) or pse.contains(fr, ("field", SELF, fl["ov"]))
+
+        def expected(K):
+            ov_ok = (flag == 1 and eq0(K) == 1 and present == 1)
+            if ov_ok:
+                return "override"
+            alts = [plain(K)]
+            if eq0(K) == 1:
+                alts.append(plain(("const", "usize", 0)))
+            return alts
+
+        def matches(fr, exp):
+            if exp == "override":
+                return is_override(fr)
+            return fr in exp
+
+        # the time used: clamp(arg2, 0, 1)
+        uses = [x for x in subterms((r,) + tuple(c[0] for c in p.conds)) if x == ("param", 2)]
+        clamps = [x for x in subterms((r,) + tuple(c[0] for c in p.conds)) if x[0] == "call" and x[1].endswith("::clamp")
+                  and x[2][0] == ("param", 2)]
+        okc = all(intervals.fval(c[2][1]) == 0.0 and intervals.fval(c[2][2]) == 1.0 for c in clamps) and len(uses) == len(clamps)
+        ctx.ob(rule2, lab + "/clamped", okc, "the position is clamped to [0,1] before every use", body["span"],
+               trace_of(p), what="position-not-clamped")
+        T = clamps[0] if clamps else ("param", 2)
+        lt = None
+        at_frame = None
+        for (t, v, s) in p.conds:
+            if t[0] == "bin" and t[1] == "Lt" and t[2] == T and t[3][0] == "field" and t[3][2] == fl["time"]:
+                lt = v
+                at_frame = t[3][1]
+        if at_frame is not None:
+            ctx.ob(rule2, lab + "/anchor-frame", matches(at_frame, expected(I)),
+                   "the position is compared with the frame the index map points at (frame 0 replaced by the override "
+                   "only when enabled and present); compared with %s" % show(at_frame), body["span"], trace_of(p),
+                   what="anchor-frame-wrong")
+        if r[0] != "agg" or r[3] != "Some":
+            # None rows: nothing before the first frame, or index out of range
+            i_gt0 = [v for (t, v, s) in p.conds if t[0] == "bin" and t[1] == "Lt" and t[2] == ("const", "usize", 0) and t[3] == I]
+            miss = [v for (t, v, s) in p.conds if t[0] == "discr" and t[1][0] == "call" and t[1][1].endswith("::get") and v == 0]
+            empty = [v for (t, v, s) in p.conds if t[0] == "bin" and t[1] == "Eq" and t[2][0] == "len" and v == 1]
+            ok = (lt == 1 and i_gt0 == [0]) or bool(miss) or bool(empty) or \
+                any(t[0] == "discr" and v == 0 for (t, v, s) in p.conds)
+            ctx.ob(rule2, lab + "/none-row", ok, "None is returned only when there is no bracketing frame", body["span"],
+                   trace_of(p), what="spurious-none")
+            continue
+        val = r[4][0][1]
+        # decode (START, END)
+        if call_is(val, LERP, "lerp") or (val[0] == "call" and val[1].endswith("::lerp")):
+            n_lerp += 1
+            sv, ev, y = val[2]
+            okshape = sv[0] == "&" and ev[0] == "&" and sv[1][0] == "field" and sv[1][2] == fl["value"] and \
+                ev[1][0] == "field" and ev[1][2] == fl["value"]
+            if not okshape:
+                ctx.ob(rule3, lab + "/lerp-shape", False, "lerp operands are not frame values: %s" % show(val), body["span"],
+                       trace_of(p), what="lerp-shape")
+                continue
+            START, END = sv[1][1], ev[1][1]
+            # R3: easing from the start frame, eased fraction measured from the start frame
+            okE = (call_is(y, EF, "calc") or (y[0] == "call" and y[1].endswith("::calc"))) and \
+                y[2][0] == ("&", ("field", START, fl["easing"]))
+            ctx.ob(rule3, lab + "/easing-of-start-frame", okE,
+                   "the eased fraction uses the easing of the segment's *start* frame (CSS semantics); uses %s"
+                   % show(y[2][0] if y[0] == "call" else y), body["span"], trace_of(p), what="easing-from-wrong-frame")
+            if okE:
+                x = y[2][1]
+                okx = False
+                if x[0] == "bin" and x[1] == "Div":
+                    try:
+                        num, den = terms.poly(x[2]), terms.poly(x[3])
+                        st_, et_ = terms.p_atom(("field", START, fl["time"])), terms.p_atom(("field", END, fl["time"]))
+                        okx = num == terms.p_add(terms.p_atom(T), st_, -1) and den == terms.p_add(et_, st_, -1)
+                    except terms.NotPoly:
+                        okx = False
+                ctx.ob(rule3, lab + "/fraction", okx,
+                       "the fraction must satisfy x * (end.pos - start.pos) = t - start.pos; it is %s" % show(x),
+                       body["span"], trace_of(p), what="fraction-wrong")
+                # zero-length guard dominates the division
+                den_t = x[3] if x[0] == "bin" else None
+                guard = [v for (t, v, s) in p.conds if t[0] == "bin" and t[1] == "Eq" and t[2] == den_t
+                         and intervals.fval(t[3]) == 0.0]
+                ctx.ob(rule3, lab + "/zero-length-guard", guard == [0],
+                       "the division by the segment length is reached only after a `== 0` test on the same term failed",
+                       body["span"], trace_of(p), what="unguarded-division")
+        else:
+            # zero-length segment (or a frame value returned directly): must be the start frame's value
+            if val[0] == "field" and val[2] == fl["value"]:
+                n_zero += 1
+                START = END = None
+                zl = [(t, v) for (t, v, s) in p.conds if t[0] == "bin" and t[1] == "Eq" and t[2][0] == "bin" and t[2][1] == "Sub"
+                      and intervals.fval(t[3]) == 0.0 and v == 1]
+                okz = bool(zl)
+                if okz:
+                    d = zl[-1][0][2]
+                    START = d[3][1] if d[3][0] == "field" else None
+                    END = d[2][1] if d[2][0] == "field" else None
+                    okz = START is not None and val[1] == START
+                ctx.ob(rule3, lab + "/zero-length-returns-start", okz,
+                       "a zero-length segment returns the start frame's value without interpolating; returns %s"
+                       % show(val), body["span"], trace_of(p), what="zero-length-value")
+                if START is None:
+                    continue
+            else:
+                ctx.ob(rule3, lab + "/value-shape", False, "unexpected value: %s" % show(val), body["span"], trace_of(p),
+                       what="value-shape")
+                continue
+        # R2: the pair of frames
+        last = [v for (t, v, s) in p.conds if t[0] == "bin" and t[1] == "Eq" and t[2] == I and t[3][0] == "bin"
+                and t[3][1] == "Sub" and t[3][2][0] == "len"]
+        if lt == 1:
+            okp = matches(START, expected(Km1)) and matches(END, expected(I))
+            want = "(frame idx-1, frame idx)"
+        elif last == [1]:
+            okp = matches(START, expected(I)) and matches(END, expected(I))
+            want = "(frame idx, frame idx)"
+        else:
+            okp = matches(START, expected(I)) and END == plain(Kp1)
+            want = "(frame idx, frame idx+1)"
+        ctx.ob(rule2, lab + "/bounding-pair", okp,
+               "bounding frames must be %s with frame 0 replaced by the override only when enabled and present; got "
+               "start=%s end=%s" % (want, show(START), show(END)), body["span"], trace_of(p), what="bounding-pair-wrong")
+    ctx.floor(rule3, "eased-lerp rows of value_at", n_lerp, 8)
+    ctx.floor(rule3, "zero-length rows of value_at", n_zero, 8)
+
+
+def rule_zero_length(ctx, F, rule="R1"):
+    """C02's third exactness mechanism: zero-length segment returns the start value without dividing"""
+    fl = st_fields(F)
+    body, paths = value_at_rows(ctx, F)
+    n = 0
+    for p in paths:
+        if p.outcome != "return" or p.ret[0] != "agg" or p.ret[3] != "Some":
+            continue
+        val = p.ret[4][0][1]
+        zl = [(t, v) for (t, v, s) in p.conds if t[0] == "bin" and t[1] == "Eq" and t[2][0] == "bin" and t[2][1] == "Sub"
+              and intervals.fval(t[3]) == 0.0]
+        if zl and zl[-1][1] == 1:
+            n += 1
+            d = zl[-1][0][2]
+            ok = val[0] == "field" and d[3][0] == "field" and val[1] == d[3][1]
+            ctx.ob(rule, "zero-length/row[%s]" % ",".join(str(v) for (_, v, _) in p.conds), ok,
+                   "a zero-length segment must yield the start frame's value exactly; yields %s" % show(val), body["span"],
+                   trace_of(p), what="zero-length-value")
+    ctx.floor(rule, "zero-length rows", n, 8)
+
+
+# ---------------------------------------------------------------------------------------------------
+# R4 - master search
+def rule_search(ctx, F, rule="R4"):
+    from rules import c10
+    body, rows = c10.prepare_frame_table(ctx, F)
+    n = 0
+    for r in rows:
+        p = r["path"]
+        if p.ret[0] != "agg" or p.ret[3] != "Some":
+            continue
+        n += 1
+        tup = dict(p.ret[4][0][1][4])
+        pos, idx = tup["0"], tup["1"]
+        bs = calls(p, lambda e: e["fn"]["name"] in ("binary_search_by", "binary_search_by_key", "partition_point"))
+        lab = "row[%s]" % ",".join(str(v) for (_, v, _) in p.conds)
+        if len(bs) != 1:
+            ctx.ob(rule, lab + "/search", False, "exactly one search of the boundary table per evaluation", body["span"],
+                   trace_of(p), what="search-missing")
+            continue
+        b = bs[0]
+        ctx.ob(rule, lab + "/table", b["descs"][0] == ("&", ("deref", ("param", 2))),
+               "the table searched must be the timeline's own boundary_times; searches %s" % show(b["descs"][0]),
+               body["span"], trace_of(p), what="wrong-table")
+        res = b["result"]
+        ok_i = idx == ("field", ("variant", res, "Ok"), "0")
+        n_ = ("field", ("variant", res, "Err"), "0")
+        ok_e = idx == ("bin", "Sub", ("max", n_, ("const", "usize", 1)), ("const", "usize", 1), "usize") or \
+            (idx[0] == "call" and idx[1].endswith("saturating_sub") and idx[2] == (n_, ("const", "usize", 1)))
+        ctx.ob(rule, lab + "/index", ok_i or ok_e,
+               "the master index is i for an exact hit and max(n,1)-1 for insertion point n; it is %s" % show(idx),
+               body["span"], trace_of(p), what="master-index-wrong")
+        # comparator: element vs. target (the position of this row), ascending
+        clo = b["descs"][1]
+        cb = eng_body(F, clo)
+        okc = False
+        got = None
+        if cb is not None:
+            ps = [q for q in pse.Engine(F, inline=lambda fn, bb: False).run(cb) if q.outcome == "return"]
+            if len(ps) == 1:
+                rr = ps[0].ret
+                got = show(rr)
+                okc = rr[0] == "call" and rr[1].endswith("f32>::total_cmp") and rr[2][0] == ("&", ("deref", ("param", 2))) \
+                    and pse.contains(rr[2][1], ("param", 1))
+            # the captured target is the position handed on
+            cap = clo[4][0][1] if clo[0] == "agg" and clo[4] else None
+            if okc and cap is not None and cap[0] == "ref":
+                tgt = pse.Engine(F).read_loc(p, cap[1], cap[2])
+                okc = tgt == pos
+        ctx.ob(rule, lab + "/comparator", okc,
+               "the search comparator must order element vs. the position handed on, ascending, through a total order "
+               "(|t| t.total_cmp(&position)); it is %s" % got, body["span"], trace_of(p), what="search-comparator-wrong")
+    ctx.floor(rule, "prepare_frame rows", n, 8)
+
+
+def eng_body(F, clo):
+    if clo and clo[0] == "agg" and clo[1] == "closure":
+        return F.bodies.get(clo[2])
+    return None
+
+
 def check(ctx):
-    pass
+    F = ctx.facts
+    rule_split(ctx, F, "R1")
+    rule_lookup(ctx, F, "R2", "R3")
+    rule_search(ctx, F, "R4")
+    try:
+        from rules import derive_rules
+        derive_rules.rule_wiring(ctx, "R5")
+    except ImportError:
+        ctx.notes.append("R5 (derive wiring) not built yet")
+    ctx.notes.append("not decided: that the index arithmetic is right for every keyframe set (an inductive numeric fact "
+                     "about sorted positions); the value of any interpolation")
+    ctx.assumptions += ["slice::binary_search_by on a sorted table returns Ok(i) for a hit and Err(insertion point) otherwise",
+                        "boundary table sorted (C11)"]
